@@ -39,8 +39,8 @@ def project_strict(w, res, perm):
     return x
 
 
-def strict_record(parent, thr, gt, d, perms, parent_before=None):
-    w = World(parent_before if parent_before is not None else parent, thr, gt=gt)
+def strict_record(parent, thr, gt, d, perms, parent_before=None, link='parent'):
+    w = World(parent_before if parent_before is not None else parent, thr, gt=gt, link=link)
     dist = w.dists(d)
     if parent_before is not None:
         # the taxonomy is edited between two classifications on the same objects: classify and walk every lineage on the old forest,
@@ -76,7 +76,7 @@ class Fam(core.Family):
         if inp['op'] == 'cons':
             return cons_record(inp['parent'], inp['input'])
         perms = inp.get('perms') or list(itertools.permutations(range(1, len(inp['gt']) + 1)))
-        return strict_record(inp['parent'], inp['thr'], inp['gt'], inp['d'], perms, inp.get('parent_before'))
+        return strict_record(inp['parent'], inp['thr'], inp['gt'], inp['d'], perms, inp.get('parent_before'), inp.get('link', 'parent'))
 
     def corrupt(self, rec):
         if rec['op'] == 'cons':
@@ -189,7 +189,7 @@ class StrictRandom(Fam):
             if ng == 5:
                 allp = list(itertools.permutations(range(1, 6)))
                 perms = [list(x) for x in rng.sample(allp, 30)]
-            yield dict(op='strict', parent=p, thr=thr, gt=gt, d=d, perms=perms)
+            yield dict(op='strict', parent=p, thr=thr, gt=gt, d=d, perms=perms, link=('children' if i % 2 else 'parent'))
 
     nontrivial = StrictExhaustive.nontrivial
 
